@@ -43,6 +43,21 @@ CHECKS = {
                      "exit, abort timer, write on a closed writer) in both orders is in the bounded-hostility graph (budget 2); the real "
                      "500 ms / 1 s goroutines are waited for, and HandleConnectionClosed calls are counted per connection object. The hub "
                      "level part of C11 is decided by the HubApi / two-hub checks.", ref="6.C11"),
+    "C12": dict(engine="ws", technique="TLA+ model checking of WsConn (TLC, incl. liveness) + environment scripts on the real connection, TLC monitor + trace validation",
+                text="WsConn.tla models writers, both pumps and close() at the code's atomicity; TLC checks no-panic, prefix and "
+                     "every-write-returns (liveness under per-process fairness) for 2-3 writers, every placement of local close, peer "
+                     "EOF, failing and blocked transport writes. The WsGen table (closing event x placement incl. the full outgoing queue "
+                     "x traffic) is run on real ws.WebsocketConnections over a fault injecting net.Conn; MonWs judges calls and peer "
+                     "frames with interval semantics; recorded histories are trace-validated against WsConn (TraceWs).", ref="6.C12",
+                note="trusted: gorilla/websocket, loopback TCP, TLC; faults are injected under gorilla through Dialer.NetDial; "
+                     "schedules of the real goroutines are forced through the environment or recorded, never enumerated"),
+    "C13": dict(engine="ws", technique="TLA+ model checking of WsConn (TLC, incl. liveness) + fault at every k-th transport read/write on the real connection, TLC monitor",
+                text="Same model and engine as C12 with the C13 formulas: loss reported with a non-nil closed-error, quiet local close, "
+                     "at most the one in-flight delivery after close, and closed ~> pumps done and socket closed (liveness). On the real "
+                     "code a fault is injected at the k-th net.Conn read / write for every k of a session, peer close frames and EOF, "
+                     "local close with and without reason; pump goroutines are attributed per scenario from the goroutine dump and "
+                     "net.Conn.Close calls are counted.", ref="6.C13",
+                note="trusted: gorilla/websocket, loopback TCP, TLC; pump termination is read from runtime.Stack"),
     "C14": dict(engine="timer", technique="TLA+ refinement Timer => AbsTimer (TLC) + all arm/stop scripts on real timers, timed-AbsTimer TLC monitor",
                 text="Timer.tla models setHandshakeTimer/stopHandshakeTimer at goroutine granularity and TLC checks that it refines "
                      "AbsTimer (the timer ShipSme assumes); TimerGen enumerates every arm/stop/re-arm/expire script, which is run on real "
@@ -61,8 +76,6 @@ NOT_YET = {
     "C05": "two-hub engine / Hub2 not built yet; nothing is claimed",
     "C07": "EebusJson module not built yet; nothing is claimed",
     "C10": "HubApi / Hub2 not built yet; nothing is claimed",
-    "C12": "WsConn not built yet; nothing is claimed",
-    "C13": "WsConn not built yet; nothing is claimed",
     "C15": "HubApi not built yet; nothing is claimed",
     "C16": "MdnsText not built yet; nothing is claimed",
     "C17": "MdnsMgr not built yet; nothing is claimed",
@@ -102,6 +115,9 @@ def main():
             dict(name="sme", path="spec/ShipSme.tla spec/SmeProps.tla spec/MonSme.tla harness/cmd/sme tools/check_sme.py",
                  serves_properties=["C01", "C03", "C04", "C06", "C08", "C09", "C11"],
                  kind_free_text="TLC model checking + replay of TLC behaviours into real ship.ShipConnection objects + TLC monitor pass"),
+            dict(name="ws", path="spec/WsConn.tla spec/WsGen.tla spec/MonWs.tla spec/TraceWs.tla harness/cmd/wsconn tools/check_ws.py",
+                 serves_properties=["C12", "C13"],
+                 kind_free_text="TLC model checking incl. liveness + scripted runs of the real websocket connection + TLC monitor + trace validation"),
             dict(name="timer", path="spec/Timer.tla spec/AbsTimer.tla spec/TimerGen.tla spec/MonTimer.tla harness/cmd/timer tools/check_timer.py",
                  serves_properties=["C14"], kind_free_text="TLC refinement check + script enumeration on real timers + TLC monitor pass"),
         ],
